@@ -46,6 +46,10 @@ def gen_op_case(rng, N, mode):
     return c
 
 
+class WrapperNotCalled(Exception):
+    pass
+
+
 def impl_op(c):
     """Real EvolveDensityMatrix.apply with the module-level name krylov_exp rebound to a recorder."""
     import torch
@@ -83,6 +87,8 @@ def impl_op(c):
             sn = [complex(float(torch.sin(p))) for p in ph]
     finally:
         te.krylov_exp = saved
+    if "kw" not in rec:
+        raise WrapperNotCalled("EvolveDensityMatrix.apply returned without calling the module-level name krylov_exp")
     kw = rec["kw"]
     flags = (len(rec["args"]) == 0 and kw.get("norm_tolerance") == c["tol"] and kw.get("exp_tolerance") == c["tol"]
              and kw.get("is_hermitian") is False and set(kw) <= {"norm_tolerance", "exp_tolerance", "is_hermitian",
@@ -129,7 +135,7 @@ def op_stage(ctx, n_cases):
                     ctx.extra["first_op_disagreement"] = c
         if parse(outs[-1]) != ((7, 7), False) and parse(outs[-1]) != (7, 7, False):
             ok, detail = False, f"dm_krylov_args prints {outs[-1]}"
-    except (common.CoqEvalError, ValueError) as ex:
+    except (common.CoqEvalError, ValueError, WrapperNotCalled) as ex:
         ok, detail = False, str(ex)
     ctx.obligation("correspondence:Model.SvLindRun.dm_op==EvolveDensityMatrix.apply op (exact, dyadic)", ok and flags_ok,
                    detail, kind="correspondence")
@@ -255,6 +261,147 @@ def run_stage(ctx, n_cases):
         ok, detail = False, str(ex)
     ctx.obligation("correspondence:Model.SvLindRun.sv_run==SVBackendImpl._run density-matrix branch (bit-exact)", ok,
                    detail, kind="correspondence")
+
+
+# =====================================================================================================
+# fail-closed source shape: the density-matrix stepper reaches the exponential ONLY through the public wrapper
+# krylov_exp (which raises RecursionError when the Krylov space is exhausted without convergence)
+STEPPER_METHOD = "apply"      # the method SVBackendImpl._evolve_step calls on the stepper class
+
+
+def source_shape(te_text, ke_text):
+    """Returns a list of problems (empty = the expected shape)."""
+    import ast
+
+    bad = []
+    tree = ast.parse(te_text)
+    imports = [x for x in tree.body if isinstance(x, ast.ImportFrom)
+               and any(a.name == "krylov_exp" for a in x.names)]
+    if len(imports) != 1 or imports[0].module != "emu_base.math.krylov_exp" or any(
+            a.asname for a in imports[0].names if a.name == "krylov_exp"):
+        bad.append("time_evolution.py must bind krylov_exp by `from emu_base.math.krylov_exp import krylov_exp`")
+    for x in tree.body:
+        names = []
+        if isinstance(x, (ast.FunctionDef, ast.ClassDef)):
+            names = [x.name]
+        elif isinstance(x, ast.Assign):
+            names = [t.id for t in x.targets if isinstance(t, ast.Name)]
+        if "krylov_exp" in names:
+            bad.append("module-level name krylov_exp is rebound in time_evolution.py")
+    cls = [x for x in tree.body if isinstance(x, ast.ClassDef) and x.name == "EvolveDensityMatrix"]
+    if len(cls) != 1:
+        return bad + ["class EvolveDensityMatrix not found"]
+    fns = [x for x in cls[0].body if isinstance(x, ast.FunctionDef) and x.name == STEPPER_METHOD]
+    if len(fns) != 1:
+        return bad + [f"EvolveDensityMatrix.{STEPPER_METHOD} not found"]
+    fn = fns[0]
+    for cm in cls[0].body:      # no other method of the stepper class may touch the exponential
+        if isinstance(cm, ast.FunctionDef) and cm is not fn:
+            for node in ast.walk(cm):
+                if isinstance(node, (ast.Name, ast.Attribute)) and \
+                        (getattr(node, "id", None) or getattr(node, "attr", "")).startswith("krylov_exp"):
+                    bad.append(f"EvolveDensityMatrix.{cm.name} refers to {ast.unparse(node)}")
+    params = [a.arg for a in fn.args.args]
+    if "krylov_tolerance" not in params or "density_matrix" not in params:
+        bad.append(f"unexpected parameters of {STEPPER_METHOD}: {params}")
+    for node in ast.walk(fn):
+        ident = getattr(node, "id", None) if isinstance(node, ast.Name) else (
+            node.attr if isinstance(node, ast.Attribute) else None)
+        if ident and ident != "krylov_exp" and "krylov_exp" in ident:
+            bad.append(f"{STEPPER_METHOD} refers to `{ident}` (only the public wrapper krylov_exp is allowed)")
+        if ident in ("double_krylov",):
+            bad.append(f"{STEPPER_METHOD} refers to `{ident}`")
+    calls = [c for c in ast.walk(fn) if isinstance(c, ast.Call) and isinstance(c.func, ast.Name)
+             and c.func.id == "krylov_exp"]
+    if len(calls) != 1:
+        return bad + [f"{STEPPER_METHOD} must contain exactly one call krylov_exp(...), found {len(calls)}"]
+    call = calls[0]
+    kws = {k.arg: ast.unparse(k.value) for k in call.keywords}
+    if [ast.unparse(a) for a in call.args] != ["op", "density_matrix"]:
+        bad.append(f"krylov_exp positional arguments are {[ast.unparse(a) for a in call.args]}")
+    if kws != {"norm_tolerance": "krylov_tolerance", "exp_tolerance": "krylov_tolerance", "is_hermitian": "False"}:
+        bad.append(f"krylov_exp keyword arguments are {kws}")
+    rets = [r for r in ast.walk(fn) if isinstance(r, ast.Return) and r.value is not None]
+    outer = [r for r in rets if not any(r in ast.walk(d) for d in ast.walk(fn)
+                                        if isinstance(d, ast.FunctionDef) and d is not fn)]
+    ok_ret = (len(outer) == 1 and isinstance(outer[0].value, ast.Tuple) and len(outer[0].value.elts) == 2
+              and outer[0].value.elts[0] is call and ast.unparse(outer[0].value.elts[1]) == "ham")
+    if not ok_ret:
+        bad.append(f"{STEPPER_METHOD} must `return (krylov_exp(...), ham)`; found "
+                   f"{[ast.unparse(r)[:80] for r in outer]}")
+    inner = [d for d in fn.body if isinstance(d, ast.FunctionDef) and d.name == "op"]
+    if len(inner) != 1 or [ast.unparse(x) for x in inner[0].body] != ["return -1j * dt * (ham @ x)"]:
+        bad.append("nested op(x) is not `return -1j * dt * (ham @ x)`")
+    # the wrapper itself refuses unconverged results
+    ktree = ast.parse(ke_text)
+    wr = [x for x in ktree.body if isinstance(x, ast.FunctionDef) and x.name == "krylov_exp"]
+    if len(wr) != 1:
+        return bad + ["emu_base/math/krylov_exp.py: krylov_exp not found"]
+    guards = [x for x in ast.walk(wr[0]) if isinstance(x, ast.If) and ast.unparse(x.test) == "not krylov_result.converged"
+              and x.body and isinstance(x.body[0], ast.Raise)]
+    wrets = [ast.unparse(r) for r in ast.walk(wr[0]) if isinstance(r, ast.Return)]
+    if len(guards) != 1 or wrets != ["return krylov_result.result"] or \
+            wr[0].body.index(guards[0]) > [i for i, x in enumerate(wr[0].body) if isinstance(x, ast.Return)][0]:
+        bad.append("krylov_exp wrapper does not `raise` on `not krylov_result.converged` before returning the result")
+    return bad
+
+
+def source_shape_stage(ctx):
+    te = (common.REPO / "emu_sv/time_evolution.py").read_text()
+    ke = (common.REPO / "emu_base/math/krylov_exp.py").read_text()
+    try:
+        bad = source_shape(te, ke)
+    except SyntaxError as ex:
+        bad = [f"cannot parse: {ex}"]
+    ctx.obligation("source-shape:EvolveDensityMatrix.apply reaches the exponential only through krylov_exp(...) "
+                   "(is_hermitian=False, both tolerances = krylov_tolerance) and returns its result", not bad,
+                   "; ".join(bad), kind="translator")
+    return not bad
+
+
+class krylov_counted:
+    """Runtime tie: counts calls of the wrapper and of krylov_exp_impl as seen from emu_sv.time_evolution."""
+
+    def __enter__(self):
+        import emu_sv.time_evolution as te
+        self.te = te
+        self.wrapper_calls, self.direct_impl_calls, self.flags = 0, 0, []
+        self.saved = {"krylov_exp": te.krylov_exp}
+        orig = te.krylov_exp
+
+        def counted(op, v, *a, **kw):
+            self.wrapper_calls += 1
+            self.flags.append((kw.get("is_hermitian"), kw.get("norm_tolerance"), kw.get("exp_tolerance"), len(a)))
+            return orig(op, v, *a, **kw)
+
+        te.krylov_exp = counted
+        for name in dir(te):
+            if name != "krylov_exp" and "krylov_exp" in name and callable(getattr(te, name)):
+                self.saved[name] = getattr(te, name)
+
+                def direct(*a, _f=self.saved[name], **kw):
+                    self.direct_impl_calls += 1
+                    return _f(*a, **kw)
+
+                setattr(te, name, direct)
+        return self
+
+    def __exit__(self, *a):
+        for name, f in self.saved.items():
+            setattr(self.te, name, f)
+
+    def check(self, ctx, case, nsteps, ktol, completed):
+        """one wrapper call per executed step, no direct call of the implementation"""
+        ok_flags = all(f == (False, ktol, ktol, 0) for f in self.flags)
+        expected = nsteps if completed else None
+        if self.direct_impl_calls or not ok_flags or (expected is not None and self.wrapper_calls != expected):
+            ctx.violation(
+                f"the density-matrix run made {self.wrapper_calls} krylov_exp wrapper calls for {nsteps} steps and "
+                f"{self.direct_impl_calls} direct krylov_exp_impl calls (wrapper arguments ok: {ok_flags}): a step can "
+                "return an unconverged state without raising",
+                {"case": case, "finding_key": "krylov-wrapper-bypassed"})
+            return False
+        return True
 
 
 # =====================================================================================================
@@ -405,6 +552,22 @@ def gen_hand_case(rng, thorough, n=None):
             "time_dep_U": rng.random() < 0.25}
 
 
+def gen_stiff_case(rng, thorough):
+    """4-5 atoms, interactions 10-300 times stronger than usual, steps of 100-200 ns, krylov_tolerance 1e-10: the
+    Arnoldi space (100 vectors) is exhausted in part of these; the run must then REFUSE (RecursionError)."""
+    n = rng.choice([4, 4, 5] if thorough else [4])
+    steps = rng.choice([2, 3])
+    prob = D.random_problem(rng, n, steps, dt=rng.choice([100.0, 200.0]), local=rng.random() < 0.7,
+                            phases=rng.random() < 0.5, scale=rng.choice([1.0, 2.0]))
+    prob["U"] = prob["U"] * rng.choice([3.0, 10.0, 30.0, 100.0, 300.0, 1000.0])
+    strong = rng.random() < 0.4
+    ops = [rand_op(rng, rng.choice(["relax", "deph", "gauss"])) for _ in range(rng.choice([1, 2]))]
+    if not strong:       # (almost) closed system: a single weak relaxation channel keeps the density-matrix branch
+        ops = [[[[0.0, 0.0], [math.sqrt(rng.uniform(1e-3, 5e-2)), 0.0]], [[0.0, 0.0], [0.0, 0.0]]]]
+    return {"kind": "hand", "stiff": True, "strong_noise": strong, "prob": _ser_prob(prob), "ops": ops,
+            "ktol": 1e-10, "rho0_seed": rng.randrange(10 ** 6) if rng.random() < 0.7 else None, "time_dep_U": False}
+
+
 def _ser_prob(p):
     return {k: (v.tolist() if hasattr(v, "tolist") else v) for k, v in p.items()}
 
@@ -448,11 +611,20 @@ def run_hand_case(ctx, case):
                               krylov_tolerance=case["ktol"], **kw)
         data = D.to_sequence_data(prob, lindblad_ops=[torch.tensor(o, dtype=torch.complex128) for o in ops2],
                                   U_of_t=U_of_t)
+        nsteps = len(prob["times"]) - 1
         try:
-            res = emu_sv.SVBackend._run_from_sequence_data(data, cfg)
+            with krylov_counted() as kc:
+                res = emu_sv.SVBackend._run_from_sequence_data(data, cfg)
+        except RecursionError as ex:
+            kc.check(ctx, case, nsteps, case["ktol"], completed=False)
+            if case.get("stiff"):
+                return {"refused": True}        # an honest refusal: the step did not converge and said so
+            ctx.violation(f"emu-sv raised on a valid noisy sequence: {ex!r}", {"case": case, "finding_key": "e2e-raises"})
+            return None
         except Exception as ex:
             ctx.violation(f"emu-sv raised on a valid noisy sequence: {ex!r}", {"case": case, "finding_key": "e2e-raises"})
             return None
+        kc.check(ctx, case, nsteps, case["ktol"], completed=True)
     if type(res.get_result("state", 1.0)).__name__ != "DensityMatrix":
         ctx.violation("a run with Lindblad operators did not produce a density matrix",
                       {"case": case, "finding_key": "not-density-matrix"})
@@ -545,7 +717,8 @@ def run_pulser_case(ctx, case):
                               gpu=False, krylov_tolerance=case["ktol"], noise_model=pulser.NoiseModel(**kw))
         emu_sv.SVBackend._run_from_sequence_data = staticmethod(cap)
         try:
-            res = emu_sv.SVBackend(seq, config=cfg).run()
+            with krylov_counted() as kc:
+                res = emu_sv.SVBackend(seq, config=cfg).run()
         except Exception as ex:
             ctx.violation(f"emu-sv raised on a valid noisy pulser sequence: {ex!r}",
                           {"case": case, "finding_key": "e2e-raises"})
@@ -554,6 +727,7 @@ def run_pulser_case(ctx, case):
             emu_sv.SVBackend._run_from_sequence_data = staticmethod(orig)
     om, de, ph, imat, times = captured[0]
     times = [float(t) for t in times]
+    kc.check(ctx, case, len(times) - 1, case["ktol"], completed=True)
     prob = {"n": case["n"], "times": times, "omega": om.real.numpy(), "delta": de.real.numpy(),
             "phi": ph.real.numpy(), "U": None}
     total = times[-1]
@@ -571,19 +745,31 @@ def run_case(ctx, case):
     return run_hand_case(ctx, case) if case["kind"] == "hand" else run_pulser_case(ctx, case)
 
 
-def e2e_stage(ctx, n_hand, n_pulser):
+def e2e_stage(ctx, n_hand, n_pulser, n_stiff=0):
     cases = list(corpus_cases())
     cases += [gen_hand_case(ctx.rng, ctx.thorough(), n=(i % 5 + 1 if i < 5 else None)) for i in range(n_hand)]
     cases += [gen_pulser_case(ctx.rng, ctx.thorough()) for _ in range(n_pulser)]
+    cases += [gen_stiff_case(ctx.rng, ctx.thorough()) for _ in range(n_stiff)]
     agg = {}
     hist = {}
+    stiff = {"cases": 0, "refused": 0, "completed": 0}
     for case in cases:
         w = run_case(ctx, case)
         n = case["prob"]["n"] if case["kind"] == "hand" else case["n"]
-        key = f"{case['kind']}/n={n}"
+        key = f"{case['kind']}/n={n}" + ("/stiff" if case.get("stiff") else "")
+        if case.get("stiff"):
+            stiff["cases"] += 1
+            if w and w.get("refused"):
+                stiff["refused"] += 1
+                ctx.count_case({"kind": "stiff", "n": n, "outcome": "refused", "dt": case["prob"]["times"][1],
+                                "Umax": float(np.max(case["prob"]["U"]))}, nontrivial=True)
+                hist[key] = hist.get(key, 0) + 1
+                continue
+            stiff["completed"] += 1 if w else 0
         hist[key] = hist.get(key, 0) + 1
         info = {"kind": case["kind"], "n": n, "ktol": case["ktol"]}
         if case["kind"] == "hand":
+            info.update(stiff=bool(case.get("stiff")))
             info.update(ops=len(case["ops"]), steps=case["prob"]["steps"], rho0=case["rho0_seed"] is not None,
                         time_dep_U=case["time_dep_U"], omega0=case["prob"]["omega"][0])
         else:
@@ -597,6 +783,7 @@ def e2e_stage(ctx, n_hand, n_pulser):
         ctx.count_case(info, nontrivial=True)
     ctx.extra["e2e_distribution"] = hist
     ctx.extra["e2e_worst"] = agg
+    ctx.extra["stiff_cases"] = stiff
 
 
 def run(ctx):
@@ -604,7 +791,8 @@ def run(ctx):
     common.standard_proof_stage(ctx, "C16", ["Properties/C16.vo"])
     op_stage(ctx, ctx.n(24, 500))
     run_stage(ctx, ctx.n(30, 600))
-    e2e_stage(ctx, ctx.n(22, 320), ctx.n(12, 120))
+    source_shape_stage(ctx)
+    e2e_stage(ctx, ctx.n(22, 320), ctx.n(12, 120), ctx.n(8, 60))
     ctx.rule = ("(a) operator cases N=1..3(4): integer/half-integer drives, Gaussian-integer jump operators and "
                 "density matrices (75% Hermitian), dyadic dt, real and prescribed-phase paths; non-trivial = at least "
                 "one jump operator. (b) run-loop cases: 1-7 steps, integer/fractional/irregular time grids, 1/6 "
@@ -612,7 +800,11 @@ def run(ctx):
                 "2x2 jump operators incl. relaxation/pumping/dephasing/complex, local drives and phases, irregular "
                 "grids, random mixed initial states, switched interaction matrix, krylov_tolerance 1e-10..1e-6) and "
                 "real pulser sequences with NoiseModel (relaxation, dephasing, depolarizing, effective operators) "
-                "against the dense Liouvillian reference at every evaluation time.")
+                "against the dense Liouvillian reference at every evaluation time; during every such run krylov_exp is "
+                "rebound to count: exactly one wrapper call per step, no direct krylov_exp_impl call. (d) stiff cases "
+                "(4-5 atoms, interactions x3..x300, steps of 100-200 ns, tolerance 1e-10, weak or strong noise): every "
+                "run either refuses (RecursionError, counted in stiff_cases) or meets the same accuracy and "
+                "physicality bounds.")
     ctx.trusted_base += ["hand-written Model/SvLindRun.v (validated by the two correspondences on every run) on top of "
                          "Model/SvHam.v lind_matmul (C06's model, re-validated here through dm_op)",
                          "dense reference: numpy kron + scipy.linalg.expm; drive samples of pulser runs are taken from "
